@@ -416,6 +416,10 @@ func (op *Element[T]) ReadFrom(r io.Reader) (n int64, err error) {
 			}
 
 			n += inc
+
+		} else {
+			// The encoded element has no metadata: the one of the receiver is not kept.
+			op.MetaData = nil
 		}
 
 		inc, err = op.Value.ReadFrom(r)
